@@ -318,8 +318,8 @@ func TestC11Options(t *testing.T) {
 				if target == 0 {
 					// the included template exists, but the loader that has it fails with an
 					// I/O style error while another loader simply lacks it: "every other failure
-					// is reported", with or without `ignore missing`, in either loader order
-					for order := 0; order < 2; order++ {
+					// is reported", with or without `ignore missing`, in either loader order, registered one by one or as one ChainLoader
+					for order := 0; order < 4; order++ {
 						cc := C11IOCase{Case: c, Order: order}
 						r.Case(fmt.Sprint("ioerr", opts, placement, order), true, PrintS(inc, SPrint{}), "loader-failure")
 						if err := checkC11IO(cc); err != nil {
@@ -353,10 +353,16 @@ func checkC11IO(c C11IOCase) error {
 	rest := copyMap(srcs)
 	delete(rest, "inc")
 	e := twig.New()
-	if c.Order == 0 {
+	switch {
+	case c.Order == 2:
+		// the same two loaders as members of one ChainLoader
+		e.RegisterLoader(twig.NewChainLoader([]twig.Loader{c11FailFor{"inc"}, twig.NewArrayLoader(rest)}))
+	case c.Order == 3:
+		e.RegisterLoader(twig.NewChainLoader([]twig.Loader{twig.NewArrayLoader(rest), c11FailFor{"inc"}}))
+	case c.Order == 0:
 		e.RegisterLoader(c11FailFor{"inc"})
 		e.RegisterLoader(twig.NewArrayLoader(rest))
-	} else {
+	default:
 		e.RegisterLoader(twig.NewArrayLoader(rest))
 		e.RegisterLoader(c11FailFor{"inc"})
 	}
